@@ -51,7 +51,7 @@ class C12(Prop):
             "partitioned_by (lists), tablespace; columns carry the 8 documented keys with bool unique/nullable; json.dumps works "
             "and json_dump=True returns exactly it; non-trivial = a table with constraint / alter / clause in a non-default "
             "configuration; distinct = SHA-1 of the case")
-    budgets = {"quick": 2500, "thorough": 60000}
+    budgets = {"quick": 2500, "thorough": 40000}
     assumptions = [
         "primary_key subset-of-columns is asserted for generated tables only (corpus DDL may name undeclared columns); DROP TABLE "
         "and LIKE tables have no columns of their own",
